@@ -376,7 +376,7 @@ func runHistory(p *SPlan, noUp bool, o *sim.Outcome, sigParts *[]string) []obsLi
 				want = shimmodel.Either // the upstream answers extensions even when locked in this model; not asserted
 			}
 		case "forward":
-			body, _ := hex.DecodeString(st.Arg)
+			body := rawBody(st.Arg)
 			req := append([]byte{byte(st.N)}, body...)
 			var out []byte
 			res = s.call(func() error { var e error; out, e = s.shim.Forward(req); return e })
@@ -384,7 +384,7 @@ func runHistory(p *SPlan, noUp bool, o *sim.Outcome, sigParts *[]string) []obsLi
 			want = shimmodel.OK
 			if res.err == nil && res.panicked == nil && !res.faulted {
 				if !bytes.Equal(out, append([]byte{0xEE}, req...)) {
-					o.Fail("C10.forward", "forward_bytes", i, "%s: raw request %x relayed/answered as %x (the upstream echoes EE||request)", tag, req, out)
+					o.Fail("C10.forward", "forward_bytes", i, "%s: raw request of %d bytes (%x...) relayed/answered as %d bytes (%x...) (the upstream echoes EE||request)", tag, len(req), req[:min(len(req), 24)], len(out), out[:min(len(out), 24)])
 				} else {
 					o.Probe("forward_relayed")
 				}
@@ -550,6 +550,17 @@ func runHistory(p *SPlan, noUp bool, o *sim.Outcome, sigParts *[]string) []obsLi
 		}
 	}
 	return lists
+}
+
+// rawBody expands "gen:<n>:<seed>" into n pseudo-random bytes (or decodes a hex string).
+func rawBody(arg string) []byte {
+	var n int
+	var seed uint64
+	if _, err := fmt.Sscanf(arg, "gen:%d:%d", &n, &seed); err == nil {
+		return sim.NewRng(seed).Bytes(n)
+	}
+	b, _ := hex.DecodeString(arg)
+	return b
 }
 
 func nameOf(w int) string {
